@@ -149,6 +149,13 @@ class Namespace(MutableMapping):
         else: # refers to variable outside the function being examined
             self.names[name] = Name(name)
 
+    def set_in_owner(self, name, value):
+        """Rebinds ``name`` in the namespace that holds it"""
+        ns = self.nonlocals.get(name, self)
+        while name not in ns.names and ns.parent is not None:
+            ns = ns.parent
+        ns.names[name] = value
+
     def is_immutable_value(self, name):
         ns = self.nonlocals.get(name, self)
         return name in ns.immutables
@@ -344,6 +351,10 @@ class CallListerVisitor(ast.NodeVisitor):
             current = self.namespace.get(node.id)
             if current is None or current is not self.varkwargs:
                 return
+            # whoever gets hold of the mapping may alter it, also from a
+            # nested function or a comprehension
+            self.namespace.set_in_owner(node.id, Unknown(node))
+            return
         self.namespace[node.id] = Unknown(node)
 
     def visit_Attribute(self, node):
@@ -387,6 +398,30 @@ class CallListerVisitor(ast.NodeVisitor):
         if not self.namespace.deferred:
             self.process_Call(node)
         else:
+            # the call itself is looked at later, but a method called on
+            # a parameter (kwargs.update(...)) counts from here on
+            base = node.func
+            while isinstance(base, ast.Attribute):
+                base = base.value
+            if base is not node.func and isinstance(base, ast.Name):
+                marker = self.namespace.get(base.id)
+                if isinstance(marker, Arg):
+                    marker.tainted = node
+            # ... and so does handing **kwargs over as a plain value
+            unpacked = set()
+            for sub in ast.walk(node):
+                if isinstance(sub, ast.Call):
+                    unpacked.update(
+                        id(kw.value) for kw in sub.keywords if kw.arg is None)
+            for sub in ast.walk(node):
+                if (
+                        isinstance(sub, ast.Name)
+                        and isinstance(sub.ctx, ast.Load)
+                        and id(sub) not in unpacked
+                        and self.varkwargs is not None
+                        and self.namespace.get(sub.id) is self.varkwargs
+                    ):
+                    self.namespace.set_in_owner(sub.id, Unknown(sub))
             self.to_revisit.append((node, self.namespace))
 
     def __iter__(self):
